@@ -211,13 +211,17 @@ def model_check(cases, results, name='C06'):
         idx.append(i)
     bad = []
     CH = 400
-    for off in range(0, len(rows), CH):
+    from concurrent.futures import ThreadPoolExecutor
+
+    def one(off):
         body = 'Definition cases := [\n' + ';\n'.join(rows[off:off + CH]) + '\n].\nEval vm_compute in failing 0 cases.\n'
-        rc, out, err = run_cases(f'{name}_{off // CH}', HEADER, body)
-        m = re.search(r'=\s*\[(.*?)\]\s*:\s*list nat', out, re.S)
-        if rc != 0 or not m:
-            return None, idx, (out + err)[-800:]
-        bad += [idx[off + int(x)] for x in m.group(1).replace('%nat', '').replace('\n', ' ').split(';') if x.strip()]
+        return off, run_cases(f'{name}_{off // CH}', HEADER, body)
+    with ThreadPoolExecutor(max_workers=4) as ex:
+        for off, (rc, out, err) in ex.map(one, range(0, len(rows), CH)):
+            m = re.search(r'=\s*\[(.*?)\]\s*:\s*list nat', out, re.S)
+            if rc != 0 or not m:
+                return None, idx, (out + err)[-800:]
+            bad += [idx[off + int(x)] for x in m.group(1).replace('%nat', '').replace('\n', ' ').split(';') if x.strip()]
     return bad, idx, ''
 
 
